@@ -251,6 +251,60 @@ func rc23(w *World, r *EngineResult) {
 			continue
 		}
 		advFn = fn
+	}
+	// the advance region: the advancing function and the helpers that only run as part of
+	// it, after the lexer call (bookkeeping extracted into a function of its own)
+	afterAdvance := func(site ssa.Instruction) bool {
+		fn := site.Parent()
+		for _, b2 := range fn.Blocks {
+			for _, i2 := range b2.Instrs {
+				if c, ok := i2.(*ssa.Call); ok && isLexAdvance(c.Call.StaticCallee()) {
+					if b2 == site.Block() {
+						for _, i3 := range b2.Instrs {
+							if i3 == i2 {
+								return true
+							}
+							if i3 == site {
+								break
+							}
+						}
+					} else if b2.Dominates(site.Block()) {
+						return true
+					}
+				}
+			}
+		}
+		return false
+	}
+	region := map[*ssa.Function]bool{}
+	if advFn != nil {
+		region[advFn] = true
+		cg := w.CallGraph()
+		for changed := true; changed; {
+			changed = false
+			for _, fn := range w.Funcs {
+				if region[fn] || pkgShort(fn) != "parser" {
+					continue
+				}
+				n := cg.Nodes[fn]
+				if n == nil || len(n.In) == 0 {
+					continue
+				}
+				all := true
+				for _, in := range n.In {
+					caller := in.Caller.Func
+					if !region[caller] || (caller == advFn && !afterAdvance(in.Site)) {
+						all = false
+					}
+				}
+				if all {
+					region[fn] = true
+					changed = true
+				}
+			}
+		}
+	}
+	for fn := range region {
 		for _, b := range fn.Blocks {
 			for _, ins := range b.Instrs {
 				s, ok := ins.(*ssa.Store)
@@ -268,6 +322,8 @@ func rc23(w *World, r *EngineResult) {
 				}
 			}
 		}
+	}
+	for fn := range region {
 		for _, b := range fn.Blocks {
 			for _, ins := range b.Instrs {
 				s, ok := ins.(*ssa.Store)
@@ -327,13 +383,17 @@ func rc23(w *World, r *EngineResult) {
 							}
 						}
 					}
+					if !dominated && fn != advFn && region[fn] {
+						r.holds("RC2", fnKey(fn), construct, "in a helper that only runs as part of the token advance, after the lexer call: counted once per consumed token", pos)
+						continue
+					}
 					if dominated {
 						r.holds("RC2", fnKey(fn), construct, "in the function that advances the lexer, after the advance: counted once per consumed token", pos)
 					} else {
 						r.violated("RC2", fnKey(fn), construct, "the row counter is changed outside the token advance (in a function that also runs when a token is re-delivered after Unget): rows can be counted twice or, with compensation heuristics, not at all", pos)
 					}
 				case errRowIdx:
-					if fn == advFn {
+					if region[fn] {
 						continue
 					}
 					n3++
